@@ -598,6 +598,16 @@ impl<F: Read + Write + Seek> Package<F> {
         if !Table::is_valid_name(&table_name) {
             invalid_input!("{:?} is not a valid table name", table_name);
         }
+        if table_name == STRING_POOL_TABLE_NAME
+            || table_name == STRING_DATA_TABLE_NAME
+        {
+            // These aren't tables, but their streams are named like tables'.
+            invalid_input!(
+                "Cannot create a table named {:?} (the name is reserved for \
+                 the string pool)",
+                table_name
+            );
+        }
         if columns.is_empty() {
             invalid_input!("Cannot create a table with no columns");
         }
